@@ -472,3 +472,87 @@ pub fn witness_c10steps() -> bool {
     });
     bad
 }
+
+/// C10 (reporting after a failed accepted session, over a real QUIC connection on loopback): the dialer sends an allowed Init,
+/// then a second Init (the session fails), then one stray byte (draining the stream fails too): the close error
+/// `net::handle_connection` returns must still name the document of the session.
+#[cfg(not(kani))]
+pub fn witness_c10accept() -> bool {
+    use crate::actor::OpenOpts;
+    use crate::store::Store;
+    use crate::NamespaceSecret;
+    use iroh::endpoint::presets;
+    use iroh::Endpoint;
+    let rt = tokio::runtime::Builder::new_multi_thread().worker_threads(2).enable_all().build().unwrap();
+    rt.block_on(async {
+        let secret = NamespaceSecret::from_bytes(&[91u8; 32]);
+        let namespace = secret.id();
+        let mut store = Store::memory();
+        drop(store.new_replica(secret.clone()).unwrap());
+        store.close_replica(namespace);
+        let bob = SyncHandle::spawn(store, None, "bob-accept".to_string());
+        bob.open(namespace, OpenOpts::default().sync()).await.unwrap();
+        let acc = match Endpoint::builder(presets::Minimal).alpns(vec![crate::ALPN.to_vec()]).bind().await {
+            Ok(e) => e,
+            Err(e) => {
+                eprintln!("c10accept: cannot bind a loopback endpoint: {e}");
+                return false;
+            }
+        };
+        let dial = Endpoint::bind(presets::Minimal).await.unwrap();
+        let addr = acc.addr();
+        let bob2 = bob.clone();
+        let acc2 = acc.clone();
+        let task = tokio::task::spawn(async move {
+            let incoming = acc2.accept().await.expect("an incoming connection");
+            let conn = incoming.await.expect("the connection is established");
+            crate::net::handle_connection(bob2, conn, |_ns, _peer| std::future::ready(AcceptOutcome::Allow), None).await
+        });
+        let conn = match tokio::time::timeout(std::time::Duration::from_secs(10), dial.connect(addr, crate::ALPN)).await {
+            Ok(Ok(c)) => c,
+            other => {
+                eprintln!("c10accept: the loopback connection could not be established ({})", if other.is_err() { "timeout" } else { "error" });
+                return false;
+            }
+        };
+        let (mut send, mut recv) = conn.open_bi().await.unwrap();
+        let mut buf = BytesMut::new();
+        let mut e1 = Store::memory();
+        let m1 = e1.new_replica(secret.clone()).unwrap().sync_initial_message().unwrap();
+        let mut e2 = Store::memory();
+        let m2 = e2.new_replica(secret.clone()).unwrap().sync_initial_message().unwrap();
+        SyncCodec.encode(Message::Init { namespace, message: m1 }, &mut buf).unwrap();
+        SyncCodec.encode(Message::Init { namespace, message: m2 }, &mut buf).unwrap();
+        buf.extend_from_slice(&[0xAA]); // one stray byte after the two frames
+        send.write_all(&buf).await.unwrap();
+        send.finish().unwrap();
+        let _ = tokio::time::timeout(std::time::Duration::from_secs(5), recv.read_to_end(1 << 20)).await;
+        let res = tokio::time::timeout(std::time::Duration::from_secs(20), task).await;
+        let bad = match res {
+            Ok(Ok(Err(err))) => {
+                let ns = err.namespace();
+                if ns != Some(namespace) {
+                    eprintln!("c10accept: the accepted session failed ({err:?}) and the report does not name its document");
+                    true
+                } else {
+                    false
+                }
+            }
+            Ok(Ok(Ok(_))) => {
+                eprintln!("c10accept: a session with a duplicated Init was reported as a success");
+                true
+            }
+            Ok(Err(e)) => {
+                eprintln!("c10accept: handle_connection panicked: {e}");
+                true
+            }
+            Err(_) => {
+                eprintln!("c10accept: handle_connection waits forever");
+                true
+            }
+        };
+        conn.close(0u32.into(), b"done");
+        let _ = bob.shutdown().await;
+        bad
+    })
+}
